@@ -11,7 +11,7 @@ import ast
 import itertools
 import random
 
-from vk import families, pool, poolfam
+from vk import families, pool, poolfam, rulefam
 from vk.common import Obligation
 
 PROPERTY = "C01"
@@ -68,6 +68,9 @@ def obligations(tier, seed):
         sks = (rnd.sample(hv, 60) + gr[:30] + rnd.sample(lit[::5], 20) + rnd.sample(c17[::6], 12) + rnd.sample(pointless[::2], 12) + loopv)
     else:
         sks = hv + gr + lit[::5] + c17[::6] + pointless[::2] + loopv
+    # hand-written per-rule programs (the shapes that the harvested snippets cannot reach), through the pipeline
+    fam = rulefam.skeletons()
+    sks = sks + (rnd.sample(fam, 30) if quick else fam)
     obs = []
     full = set(id(s) for s in (rnd.sample(sks, 6) if quick else rnd.sample(sks, 60)))
     base = [OPTS[0], OPTS[8]]  # safe / unsafe with defaults
